@@ -634,7 +634,7 @@ def run(ctx):
     ctx.notes["cases_matching_a_finding_signature"] = sig
     for e in recs:
         if e["op"] == "link" and e["sch"] == "blast" and e["nt"] == 3:
-            ctx.sample({k: e[k] for k in ("op", "sch", "H", "x", "q", "out")})
+            ctx.sample({k: e[k] for k in ("op", "sch", "H", "x", "steps", "decs")})
             break
     for e in recs:
         if e["op"] == "link" and e["sch"] == "gmd" and e["nr"] > e["nt"]:
